@@ -97,11 +97,11 @@ func (c implCfg) key() string {
 }
 
 type implModel struct {
-	m        *scanModel
-	lt       *lexTables
-	trailing bool
-	eof      []eofRule
-	obs      map[string]bool // kinds of stack observations seen
+	m         *scanModel
+	lt        *lexTables
+	trailing  bool
+	eof       []eofRule
+	obs       map[string]bool // kinds of stack observations seen
 	undecided string
 }
 
